@@ -135,7 +135,13 @@
    C07_rtree0_hypotheses_are_met: a parent with two nested overrides reads 0 / 20, its child reads the parent's 20,
      its own 30, blocks on a batch item, reads 30 again after the flush, 20 after its block; the parent reads 20, 10, 0.
    NOT PROVED: programs that BRANCH on the values read (an rtree class with a sequential evaluator with dynamic
-     scoping, evalV / resolve, is not started); reads combined with synchronous calls (stree).  These remain covered by the correspondence harness + monitors.
+     scoping, evalV / resolve, is not started); reads combined with synchronous calls are only partly done:
+     for MachineC07R.rstree0 (stree + non-branching reads) the erased program is an stree program (stree_erase), the class
+     invariant with FValue frames (sh_run) and the stuttering simulation (run_est_s, sim_run_s) are proved, and
+     C07_async_eq_seq_rstree0 (value() = MachineC01S.evals (erase p)) is exported; the transport of the four stree
+     theorems (reads_see_enclosing_overrides / reads_innermost / values_restored / layers_are_the_active_contexts
+     _stree -> _rstree0; needs wns of the erased program from a wnrs predicate and fvals (map eframe fr) = fvals fr) and a
+     non-vacuity example with a callee reading its caller's override are NOT done.  These remain covered by the correspondence harness + monitors.
 
    ---------------------------------------------------------------------------------------------------------
    DAGs (end of this file; proofs/MachineC07D.v): no general theorem - shared futures stay outside the proved classes.
@@ -603,3 +609,11 @@ Theorem C07_layer_owners_await_rtree0 : forall P p n t q, pointwise P -> rtree0 
   forall rest, tasks s = t :: rest -> forall u c, In (u, c) (lower s rest) -> reach s u t.
 Proof. exact layer_owners_await_rtree0. Qed.
 Print Assumptions C07_layer_owners_await_rtree0.
+
+(* synchronous calls + non-branching reads: the C01S value equation (the C07 stree theorems are not yet transported) *)
+Theorem C07_async_eq_seq_rstree0 : forall P p n o, pointwise P -> rstree0 p ->
+  let h := fst (create [] (FTask p) (st0 P)) in
+  let s1 := snd (create [] (FTask p) (st0 P)) in
+  no_unwind P n (start h s1) -> c_mode (run P n (start h s1)) = MDone o -> o = evals (erase p).
+Proof. exact async_eq_seq_rstree0. Qed.
+Print Assumptions C07_async_eq_seq_rstree0.
